@@ -701,11 +701,11 @@ func tierOf(tier string) tierCfg {
 	if tier == "thorough" {
 		return tierCfg{
 			families: []family{{"GluonDB.mailbox.quick.cfg", 2}, {"GluonDB.mailbox.thorough.cfg", 2}, {"GluonDB.message.thorough.cfg", 2}, {"GluonDB.membership.thorough.cfg", 3},
-				{"GluonDB.twobox.thorough.cfg", 2}, {"GluonDB.threemsg.thorough.cfg", 2}, {"GluonDB.tx.thorough.cfg", 2}},
+				{"GluonDB.twobox.thorough.cfg", 2}, {"GluonDB.threemsg.thorough.cfg", 2}, {"GluonDB.tx.thorough.cfg", 2}, {"GluonDB.remoteid.quick.cfg", 2}},
 			famTimeout: 15 * time.Minute, generators: 4, perGen: 1500, workers: 8, budget: 14 * time.Minute, extra: 800}
 	}
 	return tierCfg{
-		families:   []family{{"GluonDB.mailbox.quick.cfg", 2}, {"GluonDB.message.quick.cfg", 2}, {"GluonDB.membership.quick.cfg", 2}},
+		families:   []family{{"GluonDB.mailbox.quick.cfg", 2}, {"GluonDB.message.quick.cfg", 2}, {"GluonDB.membership.quick.cfg", 2}, {"GluonDB.remoteid.quick.cfg", 2}},
 		famTimeout: 3 * time.Minute, generators: 2, perGen: 150, workers: 6, budget: 55 * time.Second}
 }
 
